@@ -275,6 +275,23 @@ def xsame(a, b):
     return True
 
 
+def xdiff(a, b, path=""):
+    """which class-specific attributes differ, as text"""
+    L = lib()
+    out = []
+    if not (isinstance(a, L["ConfigNode"]) and isinstance(b, L["ConfigNode"])):
+        return out if a == b else [f"{path or '<root>'}: {a!r} -> {b!r}"]
+    xa, xb = xattrs(a), xattrs(b)
+    xa.pop("value"), xb.pop("value")
+    for k in xa:
+        if xa[k] != xb.get(k):
+            out.append(f"{path or '<root>'}: {k}: {xa[k]!r} -> {xb.get(k)!r}")
+    if isinstance(a, L["ComposedNode"]) and isinstance(b, L["ComposedNode"]):
+        for (n, x), (m, y) in zip(views(a)[1], views(b)[1]):
+            out.extend(xdiff(x, y, path + "/" + str(n)))
+    return out
+
+
 VARIANTS = {"deepcopy": ["deepcopy"], "pickle": ["pickle2", "pickle3", "pickle4", "pickle5"], "copy": ["copy"]}
 
 
@@ -467,10 +484,27 @@ def pair_bad(o, c, oafter, st, shared, xs):
     return bad
 
 
+import contextlib
+
+
+@contextlib.contextmanager
+def ambient_defaults(on):
+    """the copy is taken while the thread-local parse defaults are set (as inside Builder.add_source / a tag constructor):
+    a copy must not pick anything up from them"""
+    if not on:
+        yield
+        return
+    L = lib()
+    with L["ConfigNode"].default_filename("ambient.yaml"):
+        with L["ConfigNode"].default_safe_flag(False):
+            yield
+
+
 def record_copy(case, variant, muts, tid=0):
     """copies the case's tree for real under instrumented hooks, applies the mutations, returns the trace record
     (Trace_AyCopy format) and the set of formulas the real objects break"""
     orig = build_case(case)
+    amb = bool(case.get("ambient"))
     o = dproj(orig)
     rec = {"tid": tid, "proto": proto_of(variant), "variant": variant, "orig": o, "ev": [], "st": "ok", "copy": o, "origafter": o,
            "shared": 0, "xsame": True, "muts": []}
@@ -479,10 +513,10 @@ def record_copy(case, variant, muts, tid=0):
     try:
         if variant.startswith("pickle"):
             data = pickle.dumps(orig, protocol=int(variant[6:]))      # __reduce__ / __getstate__ run here, un-instrumented
-            with h:
+            with h, ambient_defaults(amb):
                 cp = pickle.loads(data)
         else:
-            with h:
+            with h, ambient_defaults(amb):
                 cp = do_copy(variant, orig)
     except Exception as e:  # noqa
         rec["st"] = type(e).__name__
@@ -494,6 +528,8 @@ def record_copy(case, variant, muts, tid=0):
         on, cn = all_nodes(orig), all_nodes(cp)
         rec["shared"] = len(set(on) & set(cn))
         rec["xsame"] = bool(xsame(orig, cp))
+        if not rec["xsame"]:
+            rec["xdiff"] = xdiff(orig, cp)[:8]
     bad = pair_bad(o, rec["copy"], rec["origafter"], rec["st"], rec["shared"], rec["xsame"])
     po, pc = rec["origafter"], rec["copy"]
     for m in muts:
@@ -597,6 +633,7 @@ def replay_line(args):
     """one behaviour of MC_AyCopy against the library.  Returns a small result dict."""
     uname, mode, ln, do_behaves, nctx = args
     case = _case_of_line(uname, mode, ln)
+    case["ambient"] = (sum(ln["h"]) + len(ln["p"]) + len(ln["e"])) % 4 == 1
     res = {"u": uname, "h": ln["h"], "p": ln["p"], "n": 0, "bad": [], "drift": [], "obs": [], "mm": bool(ln.get("mm"))}
     want_o = jfix(ln["o"])
     mut = ln["m"] if ln["m"]["a"] != "none" else None
@@ -609,8 +646,11 @@ def replay_line(args):
             continue
         res["n"] += 1
         o = rec["orig"]
-        if ptree(o) != want_o:
-            res["drift"].append({"what": "orig", "variant": variant})
+        if ptree(o) != want_o and not any(d["what"] == "orig" for d in res["drift"]):
+            # the library's ORIGINAL is not the tree the shared parse / merge model predicts (private flags, e.g. the
+            # re-adoption of list elements shifted by an index deletion): not C19's business, the copy is judged against
+            # the real original
+            res["drift"].append({"what": "orig", "variant": variant, "diff": diff_lines({**want_o, "py": [], "xo": []}, {**ptree(o), "py": [], "xo": []})[:4]})
         if ln["p"] == "copy":
             # a shallow copy is not in the statement: what it does to the original is reported, not judged
             if rec["st"] != "ok" or ptree(rec["copy"]) != ptree(o) or rec["origafter"] != o:
@@ -703,7 +743,8 @@ def gen_case(seed, tid):
     rng = random.Random(seed * 1000003 + tid)
     for attempt in range(40):
         docs = [_fix_calls(d) for d in _gen_docs(rng)]
-        case = {"docs": docs, "mode": "fold" if (len(docs) > 1 or rng.random() < 0.5) else "parse", "safes": [rng.random() < 0.85 for _ in docs], "edits": []}
+        case = {"docs": docs, "mode": "fold" if (len(docs) > 1 or rng.random() < 0.5) else "parse", "safes": [rng.random() < 0.85 for _ in docs], "edits": [],
+                "ambient": rng.random() < 0.3}
         try:
             tree = build_case(case)
         except Exception:  # noqa
@@ -907,7 +948,11 @@ def describe(case, variant, muts):
         p = S._path_text(e["path"])
         txt.append({"append": f"tree.ayns.get_node({p!r}).append(7)", "insert": f"tree.ayns.get_node({p!r}).insert({e['pos']}, 7)",
                     "del": f"del tree.ayns.get_node({p!r})[{e['pos']}]", "reverse": f"tree.ayns.get_node({p!r}).reverse()"}[e["op"]])
-    txt.append({"deepcopy": "cp = copy.deepcopy(tree)", "copy": "cp = copy.copy(tree)"}.get(variant, f"cp = pickle.loads(pickle.dumps(tree, protocol={variant[6:]}))"))
+    cp = {"deepcopy": "cp = copy.deepcopy(tree)", "copy": "cp = copy.copy(tree)"}.get(variant, f"data = pickle.dumps(tree, protocol={variant[6:]}); cp = pickle.loads(data)")
+    if case.get("ambient"):
+        cp = "with ConfigNode.default_filename('ambient.yaml'), ConfigNode.default_safe_flag(False):  " + cp.split("; ")[-1] + \
+             ("   # (after " + cp.split("; ")[0] + ")" if "; " in cp else "")
+    txt.append(cp)
     for m in muts:
         txt.append(f"{m['op']} on {'tree' if m['side'] == 'orig' else 'cp'} at {S._path_text(m['path'])!r}")
     return txt
@@ -1000,6 +1045,20 @@ def run_replay(path):
     print("  copy status:", rec["st"], rec.get("msg", ""))
     for ln in diff_lines(rec["orig"], rec["copy"])[:20]:
         print("  original -> copy  " + ln)
+    for ln in rec.get("xdiff", []):
+        print("  original -> copy  " + ln)
+    if rec["st"] == "ok" and pydata(rec["orig"]) != pydata(rec["copy"]):
+        def nat(d):
+            def sub(i):
+                return d["ch"][i - 1][1] if i <= len(d["ch"]) else d["xo"][i - len(d["ch"]) - 1]
+            if d["k"] in ("list", "append", "extend", "path", "stream"):
+                return [nat(sub(i)) for _, i in d["py"]]
+            if d["k"] in ("dict", "call", "bind"):
+                return {S._key_text(k): nat(sub(i)) for k, i in d["py"]}
+            return S.atom_py(d["v"]) if d["k"] == "scalar" else "!" + d["k"]
+        print("  content through the built-in view (list / dict itself):")
+        print("    original:", json.dumps(nat(rec["orig"]))[:400])
+        print("    copy    :", json.dumps(nat(rec["copy"]))[:400])
     for ln in diff_lines(rec["orig"], rec["origafter"])[:10]:
         print("  original before -> after the copy  " + ln)
     for b in bh[:4]:
@@ -1039,19 +1098,47 @@ def plan(tier):
         P += [("c03", "C03_Docs", "WholeRange", "fold", (2, 2), dict(protos=("pickle", "deepcopy")), False, 8),
               ("c03-3", "C03_DocsMdS", "WholeRange", "fold", (3, 3), dict(protos=("pickle", "deepcopy")), False, 16),
               ("c08", "C08_Docs", "C08_Range", "fold", (2, 2), dict(protos=("pickle", "deepcopy")), False, 32),
-              ("hist-mut", "C19_HistQ", "C19_HistRangeQ", "fold", (2, 2), dict(protos=("deepcopy",), maxmut=1, ctx=False), True, 0)]
+              ("hist-mut", "C19_HistM", "C19_HistRangeM", "fold", (2, 2), dict(protos=("pickle", "deepcopy"), maxmut=1, ctx=False), True, 0)]
     return P
 
 
 MUTATIONS = [
     # (name, universe, range, mode, stages, switches on, Mutation, consts, expected to break)
-    ("AttachRederivesFlags", "C19_HistQ", "C19_HistRangeQ", "fold", (2, 2), ["AttachRederivesFlags"], None, dict(), ["Inv_Faithful", "Inv_Behaves"]),
+    ("AttachRederivesFlags", "C19_HistM", "C19_HistRangeM", "fold", (2, 2), ["AttachRederivesFlags"], None, dict(), ["Inv_Faithful", "Inv_Behaves"]),
     ("UnderscoreBypass", "C19_Keys", "WholeRange", "parse", (1, 1), ["UnderscoreBypass"], None, dict(), ["Inv_Faithful", "Inv_CopyConsistent"]),
     ("ShadowKeyRaises", "C19_Keys", "WholeRange", "parse", (1, 1), ["ShadowKeyRaises"], None, dict(), ["Inv_Completes"]),
     ("ShallowChildren", "C19_ParsedS", "WholeRange", "parse", (1, 1), [], "ShallowChildren", dict(maxmut=1), ["Inv_Disjoint", "Prop_Isolated"]),
     ("StateBeforeGuard", "C19_ParsedS", "WholeRange", "parse", (1, 1), ["AttachRederivesFlags"], "StateBeforeGuard", dict(protos=("pickle",)), ["Inv_Faithful", "Inv_Behaves"]),
-    ("IterChildMap", "C19_Lists", "WholeRange", "fold", (1, 1), ["InsertKeepsMapOrder"], "IterChildMap", dict(maxedits=1), ["Inv_ContentFaithful"]),
+    ("IterChildMap", "C19_Lists", "WholeRange", "fold", (1, 1), [], "IterChildMap", dict(maxedits=1), ["Inv_ContentFaithful"]),
 ]
+
+
+def observations():
+    """probes outside the enumerated universes (reported in the evidence, never a verdict)"""
+    L = lib()
+    out = []
+    try:
+        t = L["ConfigNode"]({"a": (1, 2)})
+        try:
+            copy.deepcopy(t)
+            out.append({"what": "ConfigTuple (only constructible from Python data) can be deep-copied", "ok": True})
+        except Exception as e:  # noqa
+            out.append({"what": "a tree holding a ConfigTuple (ConfigNode({'a': (1, 2)}), not reachable from YAML) cannot be copied",
+                        "exception": type(e).__name__ + ": " + str(e)[:120]})
+    except Exception as e:  # noqa
+        out.append({"what": "ConfigTuple probe failed", "exception": type(e).__name__})
+    try:
+        case = {"docs": [S.mapping([("a", S.mapping([("b", S.with_tag(S.leaf(1), "force"))]))]), S.mapping([("a", S.with_tag(S.mapping([]), "del"))])],
+                "mode": "fold"}
+        t = build_case(case)
+        before = dproj(t)
+        copy.copy(node_at(t, [S.skey("a")]))
+        d = diff_lines(before, dproj(t))
+        out.append({"what": "copy.copy(tree['a']) of `a: {b: !force 1}` <- `a: !del {}` (a shallow copy is not in the statement)",
+                    "original_changed": d})
+    except Exception as e:  # noqa
+        out.append({"what": "copy.copy probe failed", "exception": type(e).__name__})
+    return out
 
 
 def run(prop, tier, seed, replay, keep):
@@ -1079,7 +1166,7 @@ def run(prop, tier, seed, replay, keep):
 
     # ---- universes (cached by the hash of the modules they are defined in)
     PL = plan(tier)
-    need = {(d, r) for _, d, r, *_ in PL} | {(u, r) for _, u, r, *_ in MUTATIONS} | {("C19_CtxSD", "WholeRange"), ("C19_HistQ", "C19_HistRangeQ")}
+    need = {(d, r) for _, d, r, *_ in PL} | {(u, r) for _, u, r, *_ in MUTATIONS} | {("C19_CtxSD", "WholeRange")}
     with ThreadPoolExecutor(4) as ex:
         unis = dict(zip(sorted(need), ex.map(lambda a: gen_universe(*a), sorted(need))))
     ctxs = unis[("C19_CtxSD", "WholeRange")][1]["docs"]
@@ -1100,8 +1187,8 @@ def run(prop, tier, seed, replay, keep):
         for name, docs, rng, mode, (smin, smax), sw, mu, kw, expect in MUTATIONS:
             c = _consts(sw, mode=mode, smin=smin, smax=smax, mutation=mu, scc=False, **kw)
             jobs.append(("mutation/" + name, unis[(docs, rng)][0], mc_cfg(c, [e for e in expect if e.startswith("Inv_")] or INVS, False, "Prop_Isolated" in expect), 3))
-        jobs.append(("witness", unis[("C19_HistQ", "C19_HistRangeQ")][0],
-                     mc_cfg(_consts([], mode="fold", smin=2, smax=2, protos=("deepcopy",), ctx=False), ["Inv_NoWitness"], False, False), 3))
+            if mu == "ShallowChildren":       # Disjoint is found first: Isolated is checked in a run of its own
+                jobs.append(("mutation/ShallowChildren-isolated", unis[(docs, rng)][0], mc_cfg(c, [], False, True), 3))
         byname, asyncs = {}, {}
         with ThreadPoolExecutor(max_workers=4 if quick else 3) as ex:
             from concurrent.futures import as_completed
@@ -1140,10 +1227,11 @@ def run(prop, tier, seed, replay, keep):
                                      "violated": sorted(got), "states": r["distinct"], "tlc_wall_s": round(r["wall"], 1)})
             if not ok:
                 raise tlc.TLCError(f"mutation cfg {name} was not refuted as expected ({sorted(got)}): the formulas are vacuous on {docs}\n" + r["out"][-1500:])
-        rw = byname["witness"]
-        if "Inv_NoWitness" not in rw["violated"]:
-            raise tlc.TLCError("no copied tree with a child whose inherited flags differ from its parent's derivation is reachable (C19_Witness)")
-        cov["witness_reachable"] = True
+        r = byname["mutation/ShallowChildren-isolated"]
+        cov["mutations"].append({"mutation": "ShallowChildren (action property Isolated)", "universe": "C19_ParsedS", "refuted_by_tlc": bool(r["violated"]),
+                                 "violated": sorted(set(r["violated"])), "states": r["distinct"], "tlc_wall_s": round(r["wall"], 1)})
+        if not r["violated"]:
+            raise tlc.TLCError("mutation ShallowChildren does not break the action property Isolated: it is vacuous\n" + r["out"][-1500:])
 
         # ---- direction A results
         pending = []      # (case, variant, muts, bad, rec, behaves)
@@ -1189,10 +1277,17 @@ def run(prop, tier, seed, replay, keep):
                 cov["samples"].append({"universe": name, "calls": describe(cs, VARIANTS[ln["p"]][-1], []), "mutation": ln["m"],
                                        "flag_mismatch_between_parent_and_child": bool(ln.get("mm"))})
         cov["copy_copy_observations"] = shallow_obs
+        # the antecedent is reachable: TLC printed finished copies of trees with a child whose inherited flags are not what
+        # its parent derives (MC_AyCopy!C19_Witness = the `mm` field of Emit)
+        nwit = sum(1 for nm in asyncs for ln in asyncs[nm][0] if ln.get("mm") and nm.startswith("hist"))
+        if not nwit:
+            raise tlc.TLCError("no copied tree with a child whose inherited flags differ from its parent's derivation was reached (C19_Witness)")
+        cov["witness_states"] = nwit
 
         # ---- direction B + explanation of direction A's failing / mismatch cases: TLC on the as-is machine
         recs = [x for chunk in rec_async.get(timeout=tmo) for x in chunk]
         cap = 500 if quick else 4000
+        n_failing = sum(1 for p in pending if p["bad"])
         if len(pending) > cap:
             # every copy that breaks a formula is judged; of those that agree (sent because the tree has a flag mismatch)
             # a seeded sample; of many failing copies of one kind (same universe, same formulas) a seeded sample as well
@@ -1204,6 +1299,9 @@ def run(prop, tier, seed, replay, keep):
             for g in sorted(groups):
                 rnd.shuffle(groups[g])
                 pending.extend(groups[g][:per_group])
+        # (failing copies of one universe / protocol / set of broken formulas / set of differing fields beyond the sample are
+        #  represented by the sampled members of their group)
+        cov["failing_copies"] = {"seen_by_direction_A": n_failing, "judged_by_tlc": sum(1 for p in pending if p["bad"])}
         allrecs = [x["rec"] for x in recs] + [p["rec"] for p in pending]
         verdicts, st = validate_traces(allrecs, ON, "trace", workers=4, timeout=tmo)
         missing = [r["tid"] for r in allrecs if r["tid"] not in verdicts]
@@ -1236,7 +1334,8 @@ def run(prop, tier, seed, replay, keep):
             elif cls == "violation":
                 if len(violations) < 25:
                     info = {"broken": sorted(bad), "tlc_verdict": {k: v[k] for k in ("verdict", "vstep", "lbad", "mbad", "fired")},
-                            "diff": diff_lines(x["rec"]["orig"], x["rec"]["copy"])[:30], "status": x["rec"]["st"], "behaves": x.get("behaves", []),
+                            "diff": diff_lines(x["rec"]["orig"], x["rec"]["copy"])[:30] + x["rec"].get("xdiff", []), "status": x["rec"]["st"],
+                            "behaves": x.get("behaves", []),
                             "model": v.get("model")}
                     if x.get("behaves"):
                         info["ctx"] = [[b["ctx"], ctxs[b["ctx"]]] for b in x["behaves"] if b["ctx"] >= 0][:3]
@@ -1262,6 +1361,7 @@ def run(prop, tier, seed, replay, keep):
         pool.terminate()
         pool.join()
 
+    cov["observations"] = observations()
     known_lines = []
     cov["known_findings_hit"] = []
     for s in SWITCHES:
